@@ -22,7 +22,8 @@ type RefPromoVol struct {
 }
 
 type RefPricing struct {
-	Base   int64 // base price in stake (truncated), as the chain's mock token scales 1:1
+	BaseBig *big.Int // base price, arbitrary size
+	Base    int64    // base price in stake (truncated), as the chain's mock token scales 1:1
 	ByTime []RefPromoTime
 	ByVol  []RefPromoVol
 }
@@ -58,10 +59,15 @@ func ParseRefPricing(text string) (RefPricing, error) {
 		return p, fmt.Errorf("bad price %q", raw.Price)
 	}
 	fl := new(big.Int).Quo(r.Num(), r.Denom())
+	p.BaseBig = fl
 	if !fl.IsInt64() {
-		return p, fmt.Errorf("price too large %q", raw.Price)
+		if !allowBigPrices {
+			return p, fmt.Errorf("price too large %q", raw.Price)
+		}
+		p.Base = 1<<63 - 1
+	} else {
+		p.Base = fl.Int64()
 	}
-	p.Base = fl.Int64()
 	for _, t := range raw.ByTime {
 		st, err := time.Parse(time.RFC3339Nano, t.Start)
 		if err != nil {
@@ -87,7 +93,42 @@ func ParseRefPricing(text string) (RefPricing, error) {
 	return p, nil
 }
 
+// allowBigPrices: only the stateless price check (which uses FeeBig) handles prices beyond int64
+var allowBigPrices = false
+
 var ratOne = big.NewRat(1, 1)
+
+// FeeBig is Fee for prices of any size.
+func (p RefPricing) FeeBig(tNs int64, vol uint64) *big.Int {
+	r := new(big.Rat).SetInt(p.BaseBig)
+	r.Mul(r, p.DiscountAt(tNs))
+	r.Mul(r, p.DiscountFor(vol))
+	fl := new(big.Int).Quo(r.Num(), r.Denom())
+	if fl.Cmp(big.NewInt(1)) < 0 {
+		return big.NewInt(1)
+	}
+	return fl
+}
+
+// FeeAcceptable: the chain's decimal type carries 18 decimals, so a product with more decimals is
+// rounded at the 18th before truncation. Stated tolerance of the price oracle: the result is the
+// exact floor, or the next integer if the exact product lies within 10^-18 below it.
+func (p RefPricing) FeeAcceptable(tNs int64, vol uint64, got *big.Int) bool {
+	want := p.FeeBig(tNs, vol)
+	if got.Cmp(want) == 0 {
+		return true
+	}
+	r := new(big.Rat).SetInt(p.BaseBig)
+	r.Mul(r, p.DiscountAt(tNs))
+	r.Mul(r, p.DiscountFor(vol))
+	next := new(big.Int).Add(new(big.Int).Quo(r.Num(), r.Denom()), big.NewInt(1))
+	if got.Cmp(next) != 0 {
+		return false
+	}
+	gap := new(big.Rat).Sub(new(big.Rat).SetInt(next), r)
+	eps := new(big.Rat).SetFrac(big.NewInt(1), new(big.Int).Exp(big.NewInt(10), big.NewInt(18), nil))
+	return gap.Cmp(eps) <= 0
+}
 
 // DiscountAt: the discount of the window containing t (start inclusive, end exclusive), else 1.
 func (p RefPricing) DiscountAt(tNs int64) *big.Rat {
